@@ -47,6 +47,8 @@ FIELDS = {
     "float": ("{%s:f}", ("CFloat", True, False, "VFloatText"), None, None),
     "number": ("{%s:Number}", ("CDigit", True, False, "VInt"), "(?P<%s>\\d+)", ("CDigit", True, False)),
     "small": ("{%s:Small}", ("CDigit", True, False, "VSmallInt"), None, None),
+    # {x:Number} in a definition registered after the type name Number was declared again with the Small converter (op "retype")
+    "number2": ("{%s:Number}", ("CDigit", True, False, "VSmallInt"), None, None),
     "zeronone": ("{%s:ZeroNone}", ("CDigit", True, False, "VZeroNone"), None, None),
     "nonspace": ("{%s:S}", ("CNonSpace", True, False, "VText"), "(?P<%s>\\S+)", ("CNonSpace", True, False)),
     "alpha": ("{%s:l}", ("CAlpha", True, False, "VText"), "(?P<%s>[A-Za-z]+)", ("CAlpha", True, False)),
@@ -54,7 +56,7 @@ FIELDS = {
     "star": (None, None, "(?P<%s>.*)", ("CAny", True, True)),
 }
 SAMPLE = {"any": ["Alice", "two words", "x and y", "7"], "int": ["12", "-5", "+3", "007"], "word": ["foo", "bar_1", "Ünï"],
-          "float": ["1.5", "-.25", "3.0"], "number": ["4", "42", "100", "250"], "small": ["7", "99", "100", "1234"], "zeronone": ["0", "5", "00", "10"], "nonspace": ["a-b", "x/y"],
+          "float": ["1.5", "-.25", "3.0"], "number": ["4", "42", "100", "250"], "small": ["7", "99", "100", "1234"], "number2": ["7", "99", "100", "250"], "zeronone": ["0", "5", "00", "10"], "nonspace": ["a-b", "x/y"],
           "alpha": ["abc", "Zed"], "greedy": ["all of it", "z"], "star": ["", "rest"]}
 
 
@@ -75,7 +77,7 @@ def make_pattern(rnd, allow_alt=True):
     last_field = False
     for i in range(n):
         if rnd.random() < 0.45 and not (last_field and rnd.random() < 0.8):
-            kind = rnd.choice(list(FIELDS))
+            kind = rnd.choice([k for k in FIELDS if k != "number2"])
             name = next(names) if rnd.random() < 0.75 else None
             if atoms and not last_field and not atoms[-1][1].endswith(" "):
                 atoms[-1] = ("lit", atoms[-1][1] + " ")
@@ -265,6 +267,10 @@ def impl_history(case):
                     outs.append(["ambiguous", kind, loc_of.get(m.group(1)) if m else None])
             elif op[0] == "use":
                 factory.use_step_matcher(op[1])
+            elif op[0] == "retype":
+                # the type name Number is declared again, now with another converter: definitions registered
+                # from here on are converted by the converter declared last
+                factory.register_type(Number=small)
             elif op[0] == "use_default":
                 factory.use_default_step_matcher(op[1])
             elif op[0] == "current_as_default":
@@ -305,7 +311,7 @@ def intended_regex(pat, kind):
             else:
                 k = a[1]
                 body = {"any": ".+?", "int": "[-+ ]?[-+ ]?[0-9]+" if kind in ("parse", "cfparse") else "[-+]?[0-9]+", "word": r"\w+",
-                        "float": r"[-+ ]?\d*\.\d+", "number": r"\d+", "small": r"\d+", "zeronone": r"\d+", "nonspace": r"\S+", "alpha": "[A-Za-z]+",
+                        "float": r"[-+ ]?\d*\.\d+", "number": r"\d+", "small": r"\d+", "number2": r"\d+", "zeronone": r"\d+", "nonspace": r"\S+", "alpha": "[A-Za-z]+",
                         "greedy": ".+", "star": ".*"}[k]
                 parts.append("(%s)" % body)
         outs.append("".join(parts))
@@ -329,6 +335,8 @@ def oracle(case, obs):
         if op[0] == "current_as_default":
             kind_state["default"] = kind_state["current"]
             continue
+        if op[0] == "retype":
+            continue            # its effect is carried by the "number2" fields of the patterns registered afterwards
         o = obs["outs"][k]
         k += 1
         if op[0] == "register":
@@ -402,6 +410,19 @@ def oracle(case, obs):
                 out.append(("step %r (%s) is bound to function %r, expected %r (type-specific before generic, earlier before later)" % (
                     text, stype, o[1], want[2]), "wrong-definition"))
                 continue
+            pat_w = case["patterns"][want[0]]
+            if want[1] in ("parse", "cfparse") and len(pat_w["alts"]) == 1:
+                kinds_w = [x[1] for x in pat_w["alts"][0] if x[0] == "field"]
+                rejects = conv_fails(pat_w, want[1], text)
+                if o[0] == "bound" and rejects:
+                    out.append(("step %r is bound to %r and runs although the converter declared for its field (%s, which rejects values above 99) "
+                                "rejects the matched text" % (text, render_pattern(pat_w, want[1]), "/".join(k for k in kinds_w if k in ("small", "number2"))),
+                                "argument-not-converted-as-declared"))
+                    continue
+                if o[0] == "conv_error" and not rejects and all(k in ("any", "word", "nonspace", "alpha", "number", "zeronone") for k in kinds_w):
+                    out.append(("step %r matched by %r reports a conversion error although none of its declared converters (%s) rejects the matched text"
+                                % (text, render_pattern(pat_w, want[1]), "/".join(kinds_w)), "argument-not-converted-as-declared"))
+                    continue
             if o[0] != "bound":
                 continue
             args = o[2]
@@ -420,7 +441,7 @@ def oracle(case, obs):
                     for fld, a in zip(flds, args):
                         orig = a["original"] or ""
                         exp = None
-                        if fld[1] in ("number", "small") and orig.isdigit():
+                        if fld[1] in ("number", "small", "number2") and orig.isdigit():
                             exp = ["int", int(orig)]
                         elif fld[1] == "zeronone" and orig.isdigit():
                             exp = ["int", int(orig)] if int(orig) else ["none"]
@@ -448,7 +469,7 @@ def conv_fails(pat, kind, text):
     for a in pat["alts"][0]:
         if a[0] == "field":
             i += 1
-            if a[1] == "small" and int(m.group(i)) > 99:
+            if a[1] in ("small", "number2") and int(m.group(i)) > 99:
                 return True
     return False
 
@@ -516,6 +537,8 @@ def enc(case, obs):
             ops.append("(UseDefault %s)" % ("None" if not op[1] else "(Some %s)" % CK[op[1]]))
         elif op[0] == "current_as_default":
             ops.append("CurrentAsDefault")
+        elif op[0] == "retype":
+            pass                # model side: the later patterns carry the Small conversion in their Number fields
         else:
             ops.append("(Lookup %s %s)" % (CT[op[1]], cstr(op[2])))
         if op[0] in ("register", "lookup"):
@@ -816,7 +839,74 @@ def gen_case(rnd, factory_rate=0.04):
     for t in texts[:rnd.randint(3, 10)]:
         for stype in rnd.sample(TYPES, rnd.randint(1, 2)):
             ops.append(["lookup", stype, t])
+    if rnd.random() < 0.3:
+        ops = with_retype(rnd, patterns, ops)
     return {"patterns": patterns, "nfuncs": nfuncs, "factory_funcs": factory_funcs, "locs": locs, "ops": ops}
+
+
+def with_retype(rnd, patterns, ops):
+    """Insert one ["retype"] op (Number declared again with the Small converter) while a parse-style matcher is current.
+    Later registrations of a pattern with a Number field use a copy of the pattern whose fields are "number2"; a pattern
+    text that was already registered before the op is not registered again afterwards (whether that counts as the very
+    same definition is not something the property speaks about)."""
+    current, default, spots = "parse", "parse", []
+    for i, op in enumerate(ops + [None]):
+        if current in ("parse", "cfparse"):
+            spots.append(i)             # the op is inserted before ops[i]
+        if op is None:
+            break
+        if op[0] == "use":
+            current = op[1]
+        elif op[0] == "use_default":
+            default = op[1] or default
+            current = default
+        elif op[0] == "current_as_default":
+            default = current
+    if not spots:
+        return ops
+    k = rnd.choice(spots)
+    def has_number(p):
+        return any(a[0] == "field" and a[1] == "number" for alt in p["alts"] for a in alt)
+    def ptext(p):
+        return render_pattern(p, "parse") if available(p, "parse") else None
+    seen = set(ptext(patterns[op[2]]) for op in ops[:k] if op[0] == "register")
+    out = list(ops[:k]) + [["retype"]]
+    copies = {}
+    # matcher that is current at position k, then followed through the remaining ops
+    current, default = "parse", "parse"
+    def follow(op):
+        nonlocal current, default
+        if op[0] == "use":
+            current = op[1]
+        elif op[0] == "use_default":
+            default = op[1] or default
+            current = default
+        elif op[0] == "current_as_default":
+            default = current
+    for op in ops[:k]:
+        follow(op)
+    for op in ops[k:]:
+        follow(op)
+        if op[0] == "register" and has_number(patterns[op[2]]) and current in ("parse", "cfparse"):
+            if ptext(patterns[op[2]]) in seen or not available(patterns[op[2]], "parse"):
+                continue
+            if op[2] not in copies:
+                q = dict(patterns[op[2]])
+                q["alts"] = [[(["field", "number2", a[2]] if a[0] == "field" and a[1] == "number" else a) for a in alt] for alt in q["alts"]]
+                patterns.append(q)
+                copies[op[2]] = len(patterns) - 1
+            op = ["register", op[1], copies[op[2]], op[3]]
+        out.append(op)
+    # and one definition that certainly uses the name after it was declared again, with instances on both sides of the Small limit
+    word = rnd.choice(["count", "take", "level"])
+    q = {"alts": [[("lit", word + " "), ["field", "number2", rnd.choice(["n", None])]] + ([("lit", " units")] if rnd.random() < 0.5 else [])], "end": True}
+    patterns.append(q)
+    stype = rnd.choice(TYPES)
+    out.append(["use", rnd.choice(["parse", "cfparse"])])
+    out.append(["register", stype, len(patterns) - 1, 0])
+    for v in rnd.sample(["7", "99", "100", "250", "42"], 3):
+        out.append(["lookup", stype if stype != "step" else rnd.choice(TYPES), word + " " + v + (" units" if len(q["alts"][0]) == 3 else "")])
+    return out
 
 
 def histogram(cases, obs=None):
